@@ -96,7 +96,7 @@ func (d decl) key() string { return d.In + ":" + d.Name }
 type declCell struct {
 	D     decl
 	Via   string // inline | schemaRef | paramRef
-	Level string // op | item | overridden
+	Level string // op | item | overridden | sibling
 	Name  string // parameter name used in the spec
 }
 
@@ -107,6 +107,7 @@ func cellOp(a *aspec.ASpec, idx int, cells []declCell) {
 	t := []aspec.Seg{{K: "lit", S: fmt.Sprintf("d%d", idx)}}
 	op := simpleOp("GET", t)
 	pi := aspec.PathItem{Template: t}
+	var siblings []aspec.Op
 	for ci, cell := range cells {
 		d := cell.D
 		sch := schemaOfType(d.Type)
@@ -133,11 +134,21 @@ func cellOp(a *aspec.ASpec, idx int, cells []declCell) {
 			other := aspec.Param{In: d.In, Name: cell.Name, Req: !d.Req, Schema: aspec.Schema{K: map[bool]string{true: "int32", false: "string"}[d.Type == "string"]}}
 			pi.Params = append(pi.Params, other)
 			op.Params = append(op.Params, p)
+		case "sibling":
+			// the path item declares the parameter; another operation of the same path item re-declares the same
+			// (in, name) differently - that must stay that operation's business
+			pi.Params = append(pi.Params, p)
+			other := aspec.Param{In: d.In, Name: cell.Name, Req: !d.Req, Schema: aspec.Schema{K: map[bool]string{true: "int32", false: "string"}[d.Type == "string"]}}
+			for _, m := range []string{"DELETE", "POST"} { // one declared before GET, one after (operations are read in a fixed method order)
+				sib := simpleOp(m, t)
+				sib.Params = []aspec.Param{other}
+				siblings = append(siblings, sib)
+			}
 		default:
 			op.Params = append(op.Params, p)
 		}
 	}
-	pi.Ops = []aspec.Op{op}
+	pi.Ops = append([]aspec.Op{op}, siblings...)
 	a.Paths = append(a.Paths, pi)
 }
 
@@ -276,7 +287,7 @@ func checkC04(c *core.Check) {
 	var cells [][]declCell
 	for _, d := range base {
 		for _, via := range []string{"inline", "schemaRef", "paramRef"} {
-			for _, level := range []string{"op", "item", "overridden"} {
+			for _, level := range []string{"op", "item", "overridden", "sibling"} {
 				if !thorough && via != "inline" && level != "op" && rng.Intn(2) == 0 {
 					continue
 				}
